@@ -51,7 +51,7 @@ def preload():
         importlib.import_module(m)
 
 
-EXPECTED_PROBES = {t: ["root_path:rel", "root_path:dotdot", "root_path:symlink", "configurations_in_place", "depth3_module", "dotted_path_3", "service_in_module", "device_in_module", "impl_in_module",
+EXPECTED_PROBES = {t: ["fault_free_reparsed_at_end", "root_path:rel", "root_path:dotdot", "root_path:symlink", "configurations_in_place", "depth3_module", "dotted_path_3", "service_in_module", "device_in_module", "impl_in_module",
                        "enum_in_module", "module_uses_grandchild_decl", "missing_at_depth3", "two_modules_same_basename"]
                    for t in TIERS}
 
@@ -169,8 +169,9 @@ def judge(par, base: Path, files, root_rel, expect, logger_mode, path_style="abs
                 what = "missing" if missing else "extra" if extra else "differ"
                 v.append(("split_differs", f"{cat}:{what}",
                           f"{cat}: missing {missing[:4]} extra {extra[:4]} differing {differ[:4]} vs the single-file schema"))
-        if dup:
-            v.append(("split_differs", "duplicates", f"duplicated entries after merging: {dup}"))
+        want_dup = expect[2] if len(expect) > 2 else {}
+        if dup != want_dup:
+            v.append(("split_differs", "duplicates", f"duplicated entries after merging: {dup} (the single-file schema has {want_dup})"))
         return v, out
     # error expected
     _, basename, extra, _kind = expect
@@ -199,6 +200,9 @@ def mk(v, workload, run=None):
     return {"class": cls, "signature": f"C20:{cls}:{detail}", "message": msg, "run": run, "workload": workload}
 
 
+_SINGLE_DUP = [{}]      # duplicate-name counts of the last single-file schema (a schema may legally repeat a device name)
+
+
 def single_cats(par, base: Path, root):
     src = S.render(K.flatten(root))
     K.write_files(base, {"single.fcp": src})
@@ -207,6 +211,7 @@ def single_cats(par, base: Path, root):
         txt = par.render(res)[0] if res["outcome"] == "err" else res.get("detail")
         raise RuntimeError(f"single-file rendering rejected ({res['outcome']}): {str(txt)[:500]}\n{src}")
     cats, dup = categories(res["result"].unwrap().to_dict())
+    _SINGLE_DUP[0] = dup
     return cats, src
 
 
@@ -265,7 +270,7 @@ def run_one(seed: int, index: int, tier: str) -> dict:
         sub = base / "tree" if inplace else base / "t0"
         path_style = stream(run_seed, "swarm2b").choice(["abs", "abs", "rel", "dotdot", "symlink", "cwd_elsewhere"])
         probes["root_path:" + path_style] += 1
-        v, out = judge(par, sub, files, "main.fcp", ("same", want), logger_mode, path_style)
+        v, out = judge(par, sub, files, "main.fcp", ("same", want, dict(_SINGLE_DUP[0])), logger_mode, path_style)
         prev.append(files)
         res["evals"] += 1
         tr.add("clean", outcome=out, v=[x[:2] for x in v])
@@ -300,6 +305,17 @@ def run_one(seed: int, index: int, tier: str) -> dict:
                                                                                   "text": ffiles.get(n["file"])},
                                                     "logger": logger_mode, "expect_type": detail.get("type"),
                                                     "history": hist, "path_style": path_style}, index))
+        # the process has now parsed this tree many times: the fault-free tree must STILL equal the single-file schema
+        if len(res["violations"]) < 4:
+            sub = base / "tree" if inplace else base / "tz"
+            v, out = judge(par, sub, files, "main.fcp", ("same", want, dict(_SINGLE_DUP[0])), logger_mode, path_style)
+            res["evals"] += 1
+            probes["fault_free_reparsed_at_end"] += 1
+            hist = ([prev[0]] + [h for h in prev[-2:] if h is not prev[0]]) if inplace else [files]
+            tr.add("clean_again", outcome=out, v=[x[:2] for x in v])
+            for x in v:
+                res["violations"].append(mk(x, {"tree": tree_json, "fault": None, "logger": logger_mode, "history": hist,
+                                                "path_style": path_style}, index))
     res["digest"] = tr.digest()
     res["probes"] = probes
     res["faults"] = faults
@@ -343,7 +359,7 @@ def check_workload(w):
             K.sync_files(base / "t", hf)
             par.parse("file", root_path(base / "t", "main.fcp", w.get("path_style", "abs")), w.get("logger", "fresh"))
         if w["fault"] is None:
-            v, _ = judge(par, base / "t", files, "main.fcp", ("same", want), w.get("logger", "fresh"), w.get("path_style", "abs"))
+            v, _ = judge(par, base / "t", files, "main.fcp", ("same", want, dict(_SINGLE_DUP[0])), w.get("logger", "fresh"), w.get("path_style", "abs"))
         else:
             f = w["fault"]
             ff = dict(files)
